@@ -16,6 +16,7 @@ import (
 
 	"github.com/hashicorp/go-plugin/internal/grpcmux"
 	"github.com/hashicorp/go-plugin/internal/plugin"
+	"github.com/hashicorp/go-plugin/internal/verifhook"
 	"github.com/hashicorp/go-plugin/runner"
 
 	"github.com/oklog/run"
@@ -319,6 +320,7 @@ func (b *GRPCBroker) Accept(id uint32) (net.Listener, error) {
 			return nil, err
 		}
 
+		verifhook.Point("grpc.accept.registered", id)
 		go func() {
 			err := b.listenForKnocks(id)
 			if err != nil {
@@ -353,6 +355,7 @@ func (b *GRPCBroker) Accept(id uint32) (net.Listener, error) {
 		return nil, err
 	}
 
+	verifhook.Point("grpc.accept.listening", id)
 	advertiseNet := listener.Addr().Network()
 	advertiseAddr := listener.Addr().String()
 	if b.addrTranslator != nil {
@@ -450,6 +453,7 @@ func (b *GRPCBroker) listenForKnocks(id uint32) error {
 			}
 
 			// Successful knock, open the door for the given ID.
+			verifhook.Point("grpc.knock.received", id)
 			var ackError string
 			err := b.muxer.AcceptKnock(id)
 			if err != nil {
@@ -542,6 +546,7 @@ func (b *GRPCBroker) DialWithOptions(id uint32, opts ...grpc.DialOption) (conn *
 	select {
 	case c = <-p.ch:
 		close(p.doneCh)
+		verifhook.Point("grpc.dial.info", id)
 	case <-time.After(5 * time.Second):
 		return nil, fmt.Errorf("timeout waiting for connection info")
 	}
@@ -593,6 +598,7 @@ func (m *GRPCBroker) Run() {
 		}
 
 		// Initialize the waiter
+		verifhook.Point("grpc.run.msg", msg.ServiceId)
 		var p *gRPCBrokerPending
 		if msg.Knock != nil && msg.Knock.Knock && !msg.Knock.Ack {
 			p = m.getServerStream(msg.ServiceId)
